@@ -119,6 +119,9 @@ def serve():
                 # the interpreter itself crashed while an allocation failure was armed: a NumPy/SciPy
                 # bug on the NULL-allocation path (e.g. np.float64.__getitem__), not cola behaviour
                 res = {"status": "env_crash", "signal": os.WTERMSIG(st), "crumb": crumbs[-1]}
+            elif os.WIFSIGNALED(st) and os.WTERMSIG(st) == signal.SIGALRM and crumbs and crumbs[-1].get("nonfinite") is not None:
+                # a dependency (LAPACK) did not return after an injected non-finite product
+                res = {"status": "env_hang", "signal": os.WTERMSIG(st), "crumb": crumbs[-1]}
             else:
                 res = {"status": "harness_error", "crumbs": crumbs[-2:],
                        "error": "child died (wait status %d) without a result" % st}
